@@ -72,7 +72,7 @@ func init() {
 		Technique: "abstract interpretation (must-facts at every store/notify site of the inlined graphs) + term agreement between the debit leg, the credit leg, the supply update and the notifications; who-may-write over the storage key families",
 		Explanation: "Decides the step obligations of the inductive argument for supply = Σ balances ∧ no negative balance, for all inputs and all paths: D1 family 'a' is written only inside Token.transfer, by Lock (Balance constant 0) and by the migration, the supply key only by Mint/Burn. " +
 			"D2 in every caller of Token.transfer the stored debit value is loaded(from).Balance − amount (or a Delete under Balance == amount), the stored credit is loaded(to).Balance + amount with the same amount term, other fields carried over; Mint adds exactly that amount to the supply with from = nil, Burn subtracts it with to = nil under supply ≥ amount; the public transfer establishes len(from)=len(to)=20 before any effect. " +
-			"D3 the credit record is loaded after the debit store on every path (self-transfer safety). D4 amount ≥ 0 and loaded(from).Balance ≥ amount hold at the stores. D5 every effect of Token.transfer implies its result is true (refusal is inert). D6 exactly one Transfer and one TransferX notification on result-true paths, none otherwise, arguments are the from/to/amount/details terms of the legs, no other emitter. M (mutation sweep): a successful transfer has executed both legs for 20-byte addresses and only for those (legs-executed); Mint/Burn write the supply on every return; the loaders getAccount/getSupply return the stored value exactly when present. R8: no package-level struct variable is returned or copied into a written local (a struct is a VM reference under neo-go: a shared zero value accumulates credits within an invocation). R10: the upgrade rules of the Balance contract (C16) and the stored layout of Account/Token are decided here as well.",
+			"D3 the credit record is loaded after the debit store on every path (self-transfer safety). D4 amount ≥ 0 and loaded(from).Balance ≥ amount hold at the stores. D5 every effect of Token.transfer implies its result is true (refusal is inert). D6 exactly one Transfer and one TransferX notification on result-true paths, none otherwise, arguments are the from/to/amount/details terms of the legs, no other emitter. M (mutation sweep): a successful transfer has executed both legs for 20-byte addresses and only for those (legs-executed); Mint/Burn write the supply on every return; the loaders getAccount/getSupply return the stored value exactly when present. R8: no package-level struct variable is returned or copied into a written local (a struct is a VM reference under neo-go: a shared zero value accumulates credits within an invocation). R10: the upgrade rules of the Balance contract (C16) and the stored layout of Account/Token are decided here as well. R13 catching-frame: no function with a deferred recover that a method of the property's contracts can reach lies outside the who-may-catch table (container.deleteNNSRecords).",
 		NotCovered:  "the invariant over histories is an inductive argument from D1–D6 under VM atomicity and non-wrapping VM integers; it is not executed or model-checked. Alphabet-only methods are assumed to receive 20-byte addresses and fresh lock targets (the property's own quantifier).",
 		Assumptions: []string{"VM integers fault instead of wrapping", "a balance stored earlier is non-negative (the induction hypothesis) when NewEpoch refunds the whole balance of a lock account"},
 		Run:         func(cx *CheckCtx) { runBalance(cx, "C01") },
@@ -82,7 +82,7 @@ func init() {
 		Level:     "other",
 		Technique: "abstract interpretation: at every site that can lower a balance, entailment of (not executed ∨ witness of that account ∨ caller is that account ∨ Alphabet multisignature); sign guard on the credit leg; refusal inertness",
 		Explanation: "D1 for every store/delete of an account record in every Balance method, with x the account term that keys the record: the facts at every normal exit entail ¬executed ∨ W(x) ∨ CallerIs(x) ∨ Alpha23; a credit (stored Balance = loaded + amount) is exempt only where amount ≥ 0 is established at the store. " +
-			"D2 the public transfer has no effect on any path on which it returns false. R9: a refusal is reported, not a fault: runtime.CheckWitness is asked about a caller-supplied address only with its length (20) established. R10: the upgrade rules of the Balance contract (C16) are decided here as well: an upgrade must not lose or zero balances.",
+			"D2 the public transfer has no effect on any path on which it returns false. R9: a refusal is reported, not a fault: runtime.CheckWitness is asked about a caller-supplied address only with its length (20) established. R10: the upgrade rules of the Balance contract (C16) are decided here as well: an upgrade must not lose or zero balances. R13 catching-frame: no function with a deferred recover that a method of the property's contracts can reach lies outside the who-may-catch table (container.deleteNNSRecords).",
 		NotCovered:  "correlation with run-time signer sets inside one transaction (the proof is over program paths); _deploy migration writes are gated by C16.",
 		Assumptions: []string{"lock targets are fresh addresses (the property's quantifier)"},
 		Run:         func(cx *CheckCtx) { runBalance(cx, "C02") },
@@ -93,7 +93,7 @@ func init() {
 		Technique: "abstract interpretation + term agreement: facts at the refund call site of NewEpoch, argument terms of the refund, lock record literal, ordering of the lock record write before the transfer, subscription on fresh deploy",
 		Explanation: "D1 Lock writes {Balance:0, Until:Param(until), Parent:Param(from)} at the key of the lock account before the transfer is attempted and the credit leg preserves Until/Parent. " +
 			"D2 in NewEpoch the refund transfer is called only under Until ≠ 0 ∧ epochNum ≥ Until, with from = the scanned account key, to = Parent and amount = Balance of the record loaded from that same key; no store to an account record lies between that load and the re-read by the debit leg within one iteration, so the debit leg takes the Balance == amount branch and deletes the record (no second unlock); a partial burn keeps Until/Parent (C01.D2). " +
-			"D3 the fresh-deploy path of balance._deploy subscribes to the Netmap tick. D4 an iteration of the tick goes round the refund only with len(key) ≠ 20 ∨ Until = 0 ∨ epochNum < Until and the scan ends only on exhaustion; D5 a successful transfer of the whole loaded balance deletes the record for every amount, 0 included. R8: the loader rules of C01 (stored value exactly when present, fresh zero value otherwise, no shared package-level struct handed out) are decided here as well. R10: the stored layout of the Account record (field order and types as in storage) and the upgrade rules of Balance are decided here as well. R11: every tick that returns normally has scanned the accounts (scan-always; a way round that depends on a stored key nobody in the contract writes is not a way).",
+			"D3 the fresh-deploy path of balance._deploy subscribes to the Netmap tick. D4 an iteration of the tick goes round the refund only with len(key) ≠ 20 ∨ Until = 0 ∨ epochNum < Until and the scan ends only on exhaustion; D5 a successful transfer of the whole loaded balance deletes the record for every amount, 0 included. R8: the loader rules of C01 (stored value exactly when present, fresh zero value otherwise, no shared package-level struct handed out) are decided here as well. R10: the stored layout of the Account record (field order and types as in storage) and the upgrade rules of Balance are decided here as well. R11: every tick that returns normally has scanned the accounts (scan-always; a way round that depends on a stored key nobody in the contract writes is not a way). R13 catching-frame: no function with a deferred recover that a method of the property's contracts can reach lies outside the who-may-catch table (container.deleteNNSRecords).",
 		NotCovered:  "that all locks expiring at one tick are released by that tick depends on the VM iterator semantics while the scanned family is mutated (trusted: Find takes a snapshot at call time); timing over tick schedules.",
 		Assumptions: []string{"storage.Find enumerates a snapshot taken when it is called (neo-go MemCachedStore)"},
 		Run:         runC09,
